@@ -67,6 +67,7 @@ func (r *Renter) Form(prices proto4.HostPrices, params proto4.RPCFormContractPar
 		if err := x.recv(&hostInputs); err != nil {
 			return err
 		}
+		t.between()
 		var sum types.Currency
 		for _, si := range hostInputs.HostInputs {
 			sum = sum.Add(si.Parent.SiacoinOutput.Value)
@@ -223,6 +224,7 @@ func (r *Renter) Renew(c Contract, prices proto4.HostPrices, a RenewArgs, s Scri
 		if err := x.recv(&hostInputs); err != nil {
 			return err
 		}
+		t.between()
 		var sum types.Currency
 		for _, si := range hostInputs.HostInputs {
 			sum = sum.Add(si.Parent.SiacoinOutput.Value)
